@@ -141,7 +141,42 @@ func unmarshalList(buf []byte, ety cty.Type, path cty.Path) (cty.Value, error) {
 		return cty.ListValEmpty(ety), nil
 	}
 
+	vals, err := unifyDynamicElements(vals, path)
+	if err != nil {
+		return cty.NilVal, err
+	}
 	return cty.ListVal(vals), nil
+}
+
+// unifyDynamicElements deals with collection elements that were decoded
+// against an element type containing dynamic placeholders and so may have
+// come out with different types: it converts them to a single type where
+// that's possible and returns an error otherwise.
+func unifyDynamicElements(vals []cty.Value, path cty.Path) ([]cty.Value, error) {
+	same := true
+	tys := make([]cty.Type, len(vals))
+	for i, v := range vals {
+		tys[i] = v.Type()
+		if !tys[i].Equals(tys[0]) {
+			same = false
+		}
+	}
+	if same {
+		return vals, nil
+	}
+	ty, _ := convert.UnifyUnsafe(tys)
+	if ty == cty.NilType {
+		return nil, path.NewErrorf("collection elements must all have the same type")
+	}
+	ret := make([]cty.Value, len(vals))
+	for i, v := range vals {
+		var err error
+		ret[i], err = convert.Convert(v, ty)
+		if err != nil || !ret[i].Type().Equals(ret[0].Type()) {
+			return nil, path.NewErrorf("collection elements must all have the same type")
+		}
+	}
+	return ret, nil
 }
 
 func unmarshalSet(buf []byte, ety cty.Type, path cty.Path) (cty.Value, error) {
@@ -182,6 +217,10 @@ func unmarshalSet(buf []byte, ety cty.Type, path cty.Path) (cty.Value, error) {
 		return cty.SetValEmpty(ety), nil
 	}
 
+	vals, err := unifyDynamicElements(vals, path)
+	if err != nil {
+		return cty.NilVal, err
+	}
 	return cty.SetVal(vals), nil
 }
 
@@ -234,6 +273,21 @@ func unmarshalMap(buf []byte, ety cty.Type, path cty.Path) (cty.Value, error) {
 		return cty.MapValEmpty(ety), nil
 	}
 
+	{
+		keys := make([]string, 0, len(vals))
+		elems := make([]cty.Value, 0, len(vals))
+		for k, v := range vals {
+			keys = append(keys, k)
+			elems = append(elems, v)
+		}
+		elems, err := unifyDynamicElements(elems, path)
+		if err != nil {
+			return cty.NilVal, err
+		}
+		for i, k := range keys {
+			vals[k] = elems[i]
+		}
+	}
 	return cty.MapVal(vals), nil
 }
 
